@@ -182,12 +182,31 @@ class Translator:
                 return '(sliceM %s %s %s)' % (self.expr(e.value, env, cname), self.expr(e.slice.lower, env, cname),
                                              self.expr(e.slice.upper, env, cname))
         if getattr(self, 'effect_mode', None) == 'mongo':
+            if isinstance(e, ast.Call) and isinstance(e.func, ast.Attribute) and e.func.attr == '__feed_policies' and \
+                    isinstance(e.func.value, ast.Name) and e.func.value.id == 'self' and len(e.args) == 1:
+                return '(bindM %s fun a_cur => feed_policies_MongoStorage a_cur)' % self.expr(e.args[0], env, cname)
             if isinstance(e, ast.Call) and isinstance(e.func, ast.Attribute) and isinstance(e.func.value, ast.Name) and \
                     e.func.value.id == 'self' and len(e.args) == 1 and not e.keywords and \
                     e.func.attr in ('__prepare_doc', '__prepare_from_doc'):
                 return '(%s %s)' % ('prepareDocM' if e.func.attr == '__prepare_doc' else 'fromDocM',
                                     self.expr(e.args[0], env, cname))
         if getattr(self, 'effect_mode', None) == 'redis':
+            if isinstance(e, ast.Call) and isinstance(e.func, ast.Attribute) and e.func.attr == 'items' and not e.args and \
+                    isinstance(e.func.value, ast.Name) and e.func.value.id in env:
+                return '(rhashItemsM %s)' % env[e.func.value.id]
+            if isinstance(e, ast.Call) and isinstance(e.func, ast.Attribute) and e.func.attr == 'islice' and \
+                    isinstance(e.func.value, ast.Name) and e.func.value.id == 'itertools' and len(e.args) == 3:
+                return '(isliceM %s)' % ' '.join(self.expr(a, env, cname) for a in e.args)
+            if isinstance(e, ast.Call) and isinstance(e.func, ast.Name) and e.func.id == 'dict' and len(e.args) == 1 and not e.keywords:
+                return '(callDictM %s)' % self.expr(e.args[0], env, cname)
+            if isinstance(e, ast.Subscript) and isinstance(e.value, ast.Name) and e.value.id in env and \
+                    not isinstance(e.slice, ast.Slice):
+                return '(rhashGetM %s %s)' % (env[e.value.id], self.expr(e.slice, env, cname))
+            if isinstance(e, ast.Call) and isinstance(e.func, ast.Attribute) and e.func.attr == '__feed_policies' and \
+                    isinstance(e.func.value, ast.Name) and e.func.value.id == 'self' and len(e.args) == 1:
+                # the private generator translated next to this method; it only reads the world
+                return ('(bindM %s fun a_data => bindM %s fun a_w => feed_policies_RedisStorage a_data a_w)'
+                        % (self.expr(e.args[0], env, cname), env['__w']))
             if isinstance(e, ast.Call) and isinstance(e.func, ast.Attribute) and e.func.attr in ('serialize', 'deserialize') and \
                     isinstance(e.func.value, ast.Attribute) and e.func.value.attr == 'sr' and \
                     isinstance(e.func.value.value, ast.Name) and e.func.value.value.id == 'self' and len(e.args) == 1:
@@ -634,6 +653,33 @@ class Translator:
                 return '(insertOneM %s %s\n      (fun %s => %s)\n      (fun %s => %s))' % (
                     self.expr(s.body[0].value.args[0], env, cname), env['__w'], w, self.block(rest, env2, cname, end, brk),
                     wd, self.block([b for b in s.handlers[0].body if not is_log_call(b)], envd, cname, end, brk))
+            if isinstance(s, ast.Expr) and isinstance(s.value, ast.Yield) and s.value.value is not None and '__y' in env:
+                s = ast.Assign(targets=[ast.Name(id='__y', ctx=ast.Store())],
+                               value=ast.Call(func=ast.Name(id='__append__', ctx=ast.Load()),
+                                              args=[ast.Name(id='__y', ctx=ast.Load()), s.value.value], keywords=[]))
+            if isinstance(s, ast.Expr) and isinstance(s.value, ast.Call) and isinstance(s.value.func, ast.Attribute) and \
+                    s.value.func.attr == '_check_limit_and_offset' and isinstance(s.value.func.value, ast.Name) and \
+                    s.value.func.value.id == 'self' and len(s.value.args) == 2 and not s.value.keywords:
+                w, env2 = fresh_w()
+                return ('(callProcM (bindM %s fun a_limit => bindM %s fun a_offset => bindM %s fun a_w =>\n      '
+                        'check_limit_and_offset_StorageM a_limit a_offset a_w) fun _r %s =>\n      %s)' % (
+                            self.expr(s.value.args[0], env, cname), self.expr(s.value.args[1], env, cname), env['__w'], w,
+                            self.block(rest, env2, cname, end, brk)))
+            if isinstance(s, ast.Assign) and len(s.targets) == 1 and isinstance(s.targets[0], ast.Name) and \
+                    coll_call(s.value, 'find') and not s.value.args:
+                kw = {k.arg: k.value for k in s.value.keywords}
+                srt = kw.get('sort')
+                if set(kw) == {'limit', 'skip', 'sort'} and isinstance(srt, ast.List) and len(srt.elts) == 1 and \
+                        isinstance(srt.elts[0], ast.Tuple) and getattr(srt.elts[0].elts[0], 'value', None) == '_id' and \
+                        isinstance(srt.elts[0].elts[1], ast.Attribute) and srt.elts[0].elts[1].attr == 'ASCENDING':
+                    self.fresh += 1
+                    r, w = 'r%d' % self.fresh, 'w%d' % self.fresh
+                    env2 = dict(env)
+                    env2[s.targets[0].id] = '(pure %s)' % r
+                    env2['__w'] = '(pure %s)' % w
+                    return '(findPageM %s %s %s fun %s %s =>\n      %s)' % (
+                        self.expr(kw['limit'], env, cname), self.expr(kw['skip'], env, cname), env['__w'], r, w,
+                        self.block(rest, env2, cname, end, brk))
             if isinstance(s, ast.Assign) and len(s.targets) == 1 and isinstance(s.targets[0], ast.Name) and \
                     coll_call(s.value, 'find_one') and len(s.value.args) == 1 and not s.value.keywords:
                 self.fresh += 1
@@ -671,7 +717,7 @@ class Translator:
                 f = c.func
                 if isinstance(f.value, ast.Attribute) and f.value.attr == 'client' and isinstance(f.value.value, ast.Name) and \
                         f.value.value.id == 'self' and not c.keywords and c.args and is_collection(c.args[0]):
-                    prim = {'hsetnx': ('hsetnxM', 2), 'hget': ('hgetM', 1), 'hdel': ('hdelM', 1)}.get(f.attr)
+                    prim = {'hsetnx': ('hsetnxM', 2), 'hget': ('hgetM', 1), 'hdel': ('hdelM', 1), 'hgetall': ('hgetallM', 0)}.get(f.attr)
                     if prim and len(c.args) == 1 + prim[1]:
                         return prim[0], [self.expr(a, env, cname) for a in c.args[1:]]
                 if f.attr == 'updater' and isinstance(f.value, ast.Attribute) and f.value.attr == 'scripts' and not c.args:
@@ -680,6 +726,21 @@ class Translator:
                             is_collection(kw['keys'].elts[0]) and isinstance(kw['args'], ast.List) and len(kw['args'].elts) == 2:
                         return 'scriptUpdateM', [self.expr(a, env, cname) for a in kw['args'].elts]
                 return None
+            if isinstance(s, ast.Expr) and isinstance(s.value, ast.Yield) and s.value.value is not None and '__y' in env:
+                s = ast.Assign(targets=[ast.Name(id='__y', ctx=ast.Store())],
+                               value=ast.Call(func=ast.Name(id='__append__', ctx=ast.Load()),
+                                              args=[ast.Name(id='__y', ctx=ast.Load()), s.value.value], keywords=[]))
+            if isinstance(s, ast.Expr) and isinstance(s.value, ast.Call) and isinstance(s.value.func, ast.Attribute) and \
+                    s.value.func.attr == '_check_limit_and_offset' and isinstance(s.value.func.value, ast.Name) and \
+                    s.value.func.value.id == 'self' and len(s.value.args) == 2 and not s.value.keywords:
+                self.fresh += 1
+                w = 'w%d' % self.fresh
+                env2 = dict(env)
+                env2['__w'] = '(pure %s)' % w
+                return ('(callProcM (bindM %s fun a_limit => bindM %s fun a_offset => bindM %s fun a_w =>\n      '
+                        'check_limit_and_offset_StorageR a_limit a_offset a_w) fun _r %s =>\n      %s)' % (
+                            self.expr(s.value.args[0], env, cname), self.expr(s.value.args[1], env, cname), env['__w'], w,
+                            self.block(rest, env2, cname, end, brk)))
             if isinstance(s, ast.Assign) and len(s.targets) == 1 and isinstance(s.targets[0], ast.Name):
                 cc = client_call(s.value)
                 if cc:
@@ -1296,15 +1357,42 @@ def translate_migration(repo):
 ENFOLD_METHODS = ['add', 'update', 'delete', 'get', 'get_all', 'populate']
 
 
-MONGO_METHODS = ['add', 'get', 'update', 'delete']
+MONGO_METHODS = ['add', 'get', 'update', 'delete', 'get_all']
 
 
 def translate_mongo(repo):
     out = ['import Model.PyPrim', '/-! GENERATED by harness/pytolean.py from vakt/storage/mongo.py (class MongoStorage) - do not edit -/',
            'set_option linter.unusedVariables false', 'namespace Vakt.GenMongo', 'open Vakt Vakt.PyPrim', '']
     done, failed = [], []
+    try:
+        tra = Translator(ast.parse(open(os.path.join(repo, 'vakt', 'storage', 'abc.py')).read()))
+        tra.effect_mode = 'mongo'
+        f = tra.method('Storage', '_check_limit_and_offset')
+        params = [a.arg for a in f.args.args]
+        tra.attrs, tra.fresh = set(), 0
+        env = {p: '(pure p_%s)' % p for p in params}
+        env['__w'] = '(pure p_w)'
+        body = tra.block(f.body, env, 'Storage', end=lambda e: '(pairM cNone %s)' % e['__w'])
+        out.append('/-- `vakt.storage.abc.Storage._check_limit_and_offset`, as inherited by the MongoDB storage -/')
+        out.append('def check_limit_and_offset_StorageM (%s p_w : V) : M :=\n    %s\n' % (' '.join('p_%s' % p for p in params), body))
+        done.append('_check_limit_and_offset')
+    except Untranslatable as e:
+        failed.append(('_check_limit_and_offset', str(e)))
     tr = Translator(ast.parse(open(os.path.join(repo, 'vakt', 'storage', 'mongo.py')).read()))
     tr.effect_mode = 'mongo'
+    try:
+        f = tr.method('MongoStorage', '__feed_policies')
+        params = [a.arg for a in f.args.args][1:]
+        tr.attrs, tr.fresh = set(), 0
+        env = {p: '(pure p_%s)' % p for p in params}
+        env['__w'] = '(pure p_w)'
+        env['__y'] = '(pure y0)'
+        body = '(bindM cEmptyList fun y0 =>\n      %s)' % tr.block(f.body, env, 'MongoStorage', end=lambda e: e['__y'])
+        out.append('/-- `vakt.storage.mongo.MongoStorage.__feed_policies` - a generator: the list of what it yields -/')
+        out.append('def feed_policies_MongoStorage (%s : V) : M :=\n    %s\n' % (' '.join('p_%s' % p for p in params), body))
+        done.append('__feed_policies')
+    except Untranslatable as e:
+        failed.append(('__feed_policies', str(e)))
     for m in MONGO_METHODS:
         try:
             f = tr.method('MongoStorage', m)
@@ -1329,15 +1417,43 @@ def translate_mongo(repo):
     return '\n'.join(out) + '\n', [('mongo', c, []) for c in done], [('mongo', c, r) for c, r in failed]
 
 
-REDIS_METHODS = ['add', 'get', 'update', 'delete']
+REDIS_METHODS = ['add', 'get', 'update', 'delete', 'get_all', 'find_for_inquiry']
 
 
 def translate_redis(repo):
     out = ['import Model.PyPrim', '/-! GENERATED by harness/pytolean.py from vakt/storage/redis.py (class RedisStorage) - do not edit -/',
            'set_option linter.unusedVariables false', 'namespace Vakt.GenRedis', 'open Vakt Vakt.PyPrim', '']
     done, failed = [], []
+    try:
+        tra = Translator(ast.parse(open(os.path.join(repo, 'vakt', 'storage', 'abc.py')).read()))
+        tra.effect_mode = 'redis'
+        f = tra.method('Storage', '_check_limit_and_offset')
+        params = [a.arg for a in f.args.args]
+        tra.attrs, tra.fresh = set(), 0
+        env = {p: '(pure p_%s)' % p for p in params}
+        env['__w'] = '(pure p_w)'
+        body = tra.block(f.body, env, 'Storage', end=lambda e: '(pairM cNone %s)' % e['__w'])
+        out.append('/-- `vakt.storage.abc.Storage._check_limit_and_offset`, as inherited by the Redis storage -/')
+        out.append('def check_limit_and_offset_StorageR (%s p_w : V) : M :=\n    %s\n' % (' '.join('p_%s' % p for p in params), body))
+        done.append('_check_limit_and_offset')
+    except Untranslatable as e:
+        failed.append(('_check_limit_and_offset', str(e)))
     tr = Translator(ast.parse(open(os.path.join(repo, 'vakt', 'storage', 'redis.py')).read()))
     tr.effect_mode = 'redis'
+    try:
+        f = tr.method('RedisStorage', '__feed_policies')
+        params = [a.arg for a in f.args.args][1:]
+        tr.attrs, tr.fresh = set(), 0
+        env = {p: '(pure p_%s)' % p for p in params}
+        env['__w'] = '(pure p_w)'
+        env['__y'] = '(pure y0)'
+        body = '(bindM cEmptyList fun y0 =>\n      %s)' % tr.block(f.body, env, 'RedisStorage', end=lambda e: e['__y'])
+        out.append('/-- `vakt.storage.redis.RedisStorage.__feed_policies` - a generator: the list of what it yields (it only reads the '
+                   'world: the serializer) -/')
+        out.append('def feed_policies_RedisStorage (%s p_w : V) : M :=\n    %s\n' % (' '.join('p_%s' % p for p in params), body))
+        done.append('__feed_policies')
+    except Untranslatable as e:
+        failed.append(('__feed_policies', str(e)))
     for m in REDIS_METHODS:
         try:
             f = tr.method('RedisStorage', m)
